@@ -2,7 +2,7 @@
    stretch is bounded for every tree (walk family, listing, removal, cleaning, copy, move). *)
 From Coq Require Import List ZArith Bool Lia PeanoNat.
 Import ListNotations.
-From GU Require Import C09.Model.
+From GU Require Import C09.IR C09.Gen C09.Model C09.ProofsGen.
 
 (* ---- generic: operations after cancellation never exceed the longest check-free stretch ---- *)
 
@@ -125,14 +125,6 @@ Qed.
 Lemma K_gap e B T X : K e B T X -> (max_gap X <= B)%nat.
 Proof. intros H. apply (H 0%nat). lia. Qed.
 
-(* ---- nested induction over trees ---- *)
-Fixpoint tree_ind' (P : tree -> Prop) (HF : forall n, P (F n)) (HD : forall cs, Forall P cs -> P (D cs)) (t : tree) : P t :=
-  match t with
-  | F n => HF n
-  | D cs => HD cs ((fix go (l : list tree) : Forall P l :=
-                      match l with [] => Forall_nil _ | c :: l' => Forall_cons c (tree_ind' P HF HD c) (go l') end) cs)
-  end.
-
 Ltac ksolve :=
   repeat first
     [ apply K_opsn | apply K_op
@@ -162,23 +154,29 @@ Qed.
 
 Lemma chmod_entry_gap : forall t, (max_gap (chmod_entry t) <= B_walk 1)%nat.
 Proof.
-  intros. unfold chmod_entry, walk_entry. eapply (K_gap 0 _ (B_walk 1)). apply K_chk; [lia|]. apply K_opsn. apply K_op.
-  eapply K_weaken; [|apply walk_K]. unfold B_walk, c_ls, c_isdir, c_exists. destruct (is_dir t); lia.
+  intros. unfold chmod_entry, walk_entry. eapply (K_gap 0 _ (B_walk 1)). apply K_chk; [lia|]. apply K_opsn.
+  destruct t as [n|cs].
+  - apply K_op. apply K_nil; unfold B_walk, c_ls; cbn; lia.
+  - apply K_op. eapply K_weaken; [|apply walk_K]. unfold B_walk, c_ls. cbn. lia.
 Qed.
 
 (* ---- ListDirTree ---- *)
-Lemma listtree_tr_D cs : listtree_tr (D cs) = Chk :: opsn c_ls ++ flat_map (fun c => Chk :: opsn (c_isdir c) ++ listtree_tr c) cs.
+Lemma listtree_tr_F n : listtree_tr (F n) = Chk :: opsn c_ls ++ [].
+Proof. reflexivity. Qed.
+Lemma listtree_tr_D cs : listtree_tr (D cs) =
+  Chk :: opsn c_ls ++ flat_map (fun c => Chk :: opsn (c_isdir c) ++ (if is_dir c then listtree_tr c else [])) cs.
 Proof. reflexivity. Qed.
 
 Lemma listtree_K : forall t, K B_listtree B_listtree B_listtree (listtree_tr t).
 Proof.
   induction t as [n|cs IH] using tree_ind'.
-  - apply K_nil; lia.
+  - rewrite listtree_tr_F. apply K_chk; [lia|]. apply K_opsn. apply K_nil; unfold B_listtree; lia.
   - rewrite listtree_tr_D. apply K_chk; [lia|]. apply K_opsn.
     eapply K_weaken; [|apply (K_loop B_listtree B_listtree B_listtree)]; [unfold B_listtree, c_ls; lia|lia|lia|].
     eapply Forall_impl; [|exact IH]. intros c Hc.
-    apply K_chk; [lia|]. apply K_opsn. eapply K_weaken; [|exact Hc].
-    unfold B_listtree, c_ls, c_isdir, c_exists. destruct (is_dir c); lia.
+    apply K_chk; [lia|]. apply K_opsn. destruct (is_dir c) eqn:E.
+    + eapply K_weaken; [|exact Hc]. unfold B_listtree, c_ls, c_isdir, c_exists. rewrite E. lia.
+    + apply K_nil; unfold B_listtree, c_ls, c_isdir, c_exists; rewrite E; lia.
 Qed.
 
 Lemma listtree_entry_gap : forall t, (max_gap (listtree_entry t) <= B_listtree)%nat.
@@ -308,7 +306,7 @@ Qed.
 
 Lemma ep_gap : forall e t, (max_gap (ep_trace e t) <= ep_bound e)%nat.
 Proof.
-  intros [cb| | | | | |] t; simpl;
+  intros e t. rewrite ep_trace_is_hand. destruct e as [cb| | | | | |]; simpl;
   [apply walk_entry_gap | apply chmod_entry_gap | apply listtree_entry_gap | apply remove_gap
   | apply clean_entry_gap | apply copy_entry_gap | apply move_entry_gap].
 Qed.
